@@ -220,9 +220,17 @@ loop:
 				}
 
 				if ad.conn != nil {
-					// dial to this addr was successful, complete the request
-					req.resch <- dialResponse{conn: ad.conn}
-					continue loop
+					if !ad.conn.IsClosed() {
+						// dial to this addr was successful, complete the request
+						req.resch <- dialResponse{conn: ad.conn}
+						continue loop
+					}
+					// The connection this dial produced has been closed since (the worker
+					// outlives it while other requests are pending). Handing it out would
+					// give the caller a dead connection: for this request the address failed.
+					pr.err.recordErr(ad.addr, ErrConnClosed)
+					delete(pr.addrs, string(ad.addr.Bytes()))
+					continue
 				}
 
 				if ad.err != nil {
